@@ -197,7 +197,7 @@ func merge[EntityT entity.Interface](def Definition, wrapper func(e *Entity) Ent
 	// an empty operationPack.
 	// First step is to collect those clocks.
 
-	localEntity, err := read[EntityT](def, wrapper, repo, resolvers, localRef)
+	_, err = read[EntityT](def, wrapper, repo, resolvers, localRef)
 	if err != nil {
 		return entity.NewMergeError(err, id)
 	}
@@ -225,10 +225,14 @@ func merge[EntityT entity.Interface](def Definition, wrapper func(e *Entity) Ent
 		return entity.NewMergeError(err, id)
 	}
 
-	// Note: we don't need to update localEntity state (lastCommit, operations...) as we
-	// discard it entirely anyway.
+	// The entity read above predates the merge commit: read the merged state back, so that
+	// the caller get the remote operations and build further commits on top of the merge commit.
+	mergedEntity, err := read[EntityT](def, wrapper, repo, resolvers, localRef)
+	if err != nil {
+		return entity.NewMergeError(err, id)
+	}
 
-	return entity.NewMergeUpdatedStatus(id, localEntity)
+	return entity.NewMergeUpdatedStatus(id, mergedEntity)
 }
 
 // Remove delete an Entity.
